@@ -20,6 +20,9 @@ def run_one(src, sid, checks):
         meta_in = json.load(open(os.path.join(src, "meta.json")))
     except Exception:
         pass
+    if "needs_to_manifest" in meta_in:
+        # re-filing a seed that is already under seeded/: map the stored keys back
+        meta_in = dict(meta_in, needs=meta_in.get("needs_to_manifest", ""), verified=meta_in.get("authors_verification", ""))
     demo = [f for f in os.listdir(src) if f.endswith("_test.go")][0]
     results, facts = [], {}
     for chk in checks:
@@ -40,8 +43,9 @@ def run_one(src, sid, checks):
                         "seconds": round(time.time() - t0)})
         if m and m.group(2) == "1":
             break
-    shutil.copy(os.path.join(src, "patch.diff"), os.path.join(dst, "patch.diff"))
-    shutil.copy(os.path.join(src, demo), os.path.join(dst, "demo_test.go"))
+    if os.path.realpath(src) != os.path.realpath(dst):
+        shutil.copy(os.path.join(src, "patch.diff"), os.path.join(dst, "patch.diff"))
+        shutil.copy(os.path.join(src, demo), os.path.join(dst, "demo_test.go"))
     meta = {
         "id": sid,
         "property": meta_in.get("property", sid.split("-")[0]),
